@@ -828,7 +828,11 @@ func (r *drvRun) random(rng *rand.Rand, nreq int, stallReplies bool) {
 			}
 			g := 1 + rng.Intn(r.n)
 			if r.burst {
-				// everything that is pending anywhere is answered at once
+				// everything that is pending anywhere is answered at once, and only once the driver
+				// has sent all it had to send and sleeps (no event pending)
+				if r.eng.Pending() > 0 {
+					break
+				}
 				for r.gpuTake() {
 				}
 				for h := 1; h <= r.n; h++ {
